@@ -585,7 +585,7 @@ Section Sim.
   Definition brel (s_t0 : store) (nx0 : string) (t : fres) (R : rstate) : Prop :=
     match t, R with
     | FUndef, _ => True
-    | _, RCrash _ => True
+    | _, RCrash _ _ => True
     | FNext s_t nx, RRun s_i evs => nx = nx0 /\ Rel s_t0 s_t s_i evs
     | FExit s_t nx, RStop s_i evs StFail => nx = nx0 /\ Rel s_t0 s_t s_i evs
     | FExit s_t nx, RStop s_i evs (StSwitch p) => nx = p /\ Rel s_t0 s_t s_i evs
@@ -593,18 +593,18 @@ Section Sim.
     | _, _ => False
     end.
 
-  Lemma brel_crash s_t0 nx0 t u : brel s_t0 nx0 t (RCrash u).
+  Lemma brel_crash s_t0 nx0 t u e : brel s_t0 nx0 t (RCrash u e).
   Proof. destruct t; exact I. Qed.
 
   Lemma run_list_stop l s evs w : run_list F g l (RStop s evs w) = RStop s evs w.
   Proof. unfold run_list. induction l; cbn; auto. Qed.
-  Lemma run_list_crash l u : run_list F g l (RCrash u) = RCrash u.
+  Lemma run_list_crash l u e : run_list F g l (RCrash u e) = RCrash u e.
   Proof. unfold run_list. induction l; cbn; auto. Qed.
 
   (* a Nop, or a statement guarded by the constant False, is not emitted; the interpreter visits it
      without effect (unless evaluating the guard of a Nop raises) *)
   Lemma skip_step st s evs :
-    emitted st = false -> step F g st (RRun s evs) = RRun s evs \/ exists u, step F g st (RRun s evs) = RCrash u.
+    emitted st = false -> step F g st (RRun s evs) = RRun s evs \/ exists u e, step F g st (RRun s evs) = RCrash u e.
   Proof.
     unfold emitted, step, exec_stmt. rewrite andb_false_iff, !negb_false_iff. intros [H|H].
     - destruct (skd st); try discriminate.
@@ -665,7 +665,7 @@ Section Sim.
           -- exact I.
         * rewrite run_list_crash. apply brel_crash.
         * rewrite run_list_crash. apply brel_crash.
-      + fold (lower stmts). destruct (skip_step st s_i evs Ee) as [E|[u E]]; rewrite E.
+      + fold (lower stmts). destruct (skip_step st s_i evs Ee) as [E|[u [e0 E]]]; rewrite E.
         * apply IH; assumption.
         * rewrite run_list_crash. apply brel_crash.
   Qed.
